@@ -208,7 +208,7 @@ func runC09(c *CaseCtx) *CaseResult {
 		kind = "map"
 	}
 	cc := &ContCase{Kind: kind}
-	cc.Slab = []uint32{256, 512, 1024, 300}[c.Case/2%4]
+	cc.Slab = wideSlab(c.Case, []uint32{256, 512, 1024, 300}[c.Case/2%4])
 	cc.Prof = DefaultValProfile()
 	cc.Prof.Sizes = "mixed"
 	cc.Prof.PContainer = 25
@@ -284,7 +284,7 @@ func runC03(c *CaseCtx) *CaseResult {
 		kind = "map"
 	}
 	cc := &ContCase{Kind: kind}
-	cc.Slab = []uint32{256, 1024, 512}[c.Case/2%3]
+	cc.Slab = wideSlab(c.Case, []uint32{256, 1024, 512}[c.Case/2%3])
 	cc.Prof = DefaultValProfile()
 	cc.Prof.PContainer = 18
 	cc.Prof.MaxDepth = 3
@@ -423,7 +423,7 @@ func runC10(c *CaseCtx) *CaseResult {
 		kind = "map"
 	}
 	cc := &ContCase{Kind: kind}
-	cc.Slab = []uint32{256, 512, 1024, 400}[c.Case/2%4]
+	cc.Slab = wideSlab(c.Case, []uint32{256, 512, 1024, 400}[c.Case/2%4])
 	cc.Prof = DefaultValProfile()
 	cc.Prof.Sizes = []string{"small", "mixed", "hostile"}[c.Case%3]
 	cc.Prof.PContainer = 40
@@ -466,7 +466,7 @@ func runC11(c *CaseCtx) *CaseResult {
 		kind = "map"
 	}
 	cc := &ContCase{Kind: kind}
-	cc.Slab = []uint32{256, 512, 1024}[c.Case/2%3]
+	cc.Slab = wideSlab(c.Case, []uint32{256, 512, 1024}[c.Case/2%3])
 	cc.Prof = DefaultValProfile()
 	cc.Prof.Sizes = []string{"small", "mixed"}[c.Case%2]
 	cc.Prof.PContainer = 45
